@@ -35,7 +35,17 @@ def sync_coq():
     so make stays incremental); generated files and build products in the copy are left alone."""
     if COQ == COQ_SRC:
         return
-    os.makedirs(COQ, exist_ok=True)
+    if not os.path.isdir(COQ):
+        # first use of this scratch repository: start from the main tree's compiled files (sources are identical, mtimes are
+        # preserved, so make rebuilds only what depends on a gen/ file that the scratch repository translates differently);
+        # taken under the main tree's Coq lock so that no half-written .vo is copied
+        os.makedirs(os.path.join(ROOT, ".build"), exist_ok=True)
+        with open(os.path.join(ROOT, ".build", "coq.lock"), "w") as lk:
+            fcntl.flock(lk, fcntl.LOCK_EX)
+            os.makedirs(COQ, exist_ok=True)
+            subprocess.run(["rsync", "-a", "--exclude", "Makefile*", "--exclude", ".Makefile.d", "--exclude", "_CoqProject",
+                            "--exclude", ".*.cache", COQ_SRC + "/", COQ + "/"], check=True)
+            fcntl.flock(lk, fcntl.LOCK_UN)
     subprocess.run(["rsync", "-a", "--exclude", "*.vo", "--exclude", "*.vok", "--exclude", "*.vos", "--exclude", "*.glob",
                     "--exclude", "*.aux", "--exclude", "Makefile*", "--exclude", ".Makefile.d", "--exclude", "_CoqProject",
                     "--exclude", "/gen/Gen_*.v", "--exclude", "/*.ml", "--exclude", "/*.mli", "--exclude", ".*.cache",
